@@ -71,3 +71,11 @@ Proof.
   destruct (mapM (convert ms_aut) sel_aut) as [[|[c0|] [|[c1|] [|[c2|] [|? ?]]]]|] eqn:M; try (vm_compute in M; discriminate).
   exists c0, c1, c2. split; [reflexivity|]. vm_compute in M. inversion M. subst. split; vm_compute; reflexivity.
 Qed.
+
+(** values and times pair up: an item has exactly as many values as the time array returned with it has entries *)
+Lemma values_times_same_length cell F short c :
+  length (stepping_values cell F short c) = length (times_positions F (s_times (stepping_series F short c))).
+Proof.
+  rewrite <- (stepping_series_times F short c). unfold stepping_values, stepping_series. cbn [s_at].
+  rewrite !map_length. reflexivity.
+Qed.
